@@ -46,6 +46,18 @@ class Rec(dict):
         return id(self)
 
 
+class StrEnumMember(str):
+    """A member of `class Names(str, Enum)`: equal to (and hashing like) its value, but str() gives 'Names.MEMBER'."""
+
+    def __new__(cls, value: str, shown: str):
+        o = super().__new__(cls, value)
+        o.shown = shown  # type: ignore[attr-defined]
+        return o
+
+    def __str__(self) -> str:
+        return self.shown  # type: ignore[attr-defined]
+
+
 @dataclass(frozen=True)
 class IdOf:
     of: Any
@@ -168,7 +180,7 @@ class AbsInt:
 
     def _str(self, x: Any) -> Any:
         if isinstance(x, str):
-            return x
+            return x if type(x) is str else type(x).__str__(x)  # a str subclass may print differently from its value (a `(str, Enum)` member)
         if isinstance(x, Cls):
             return f"<class '{x.name}'>"
         if isinstance(x, IdOf):
@@ -202,6 +214,8 @@ class AbsInt:
             sep = self.ev(f.value, env)
             if isinstance(sep, str) and isinstance(args[0], (list, tuple)) and all(isinstance(x, str) for x in args[0]):
                 return sep.join(args[0])
+        if dotted == 'str.__str__' and len(args) == 1 and isinstance(args[0], str):
+            return str.__str__(args[0])  # the string's own value, whatever its subclass prints
         if name == 'str' and len(args) == 1:
             return self._str(args[0]) if args[0] is not UNKNOWN else UNKNOWN
         if name == 'id' and len(args) == 1 and args[0] is not UNKNOWN:
